@@ -151,7 +151,8 @@ func (eval Evaluator) MultiplyByDiagMatrix(ctIn *rlwe.Ciphertext, matrix LinearT
 	ringQ := ringQP.RingQ
 	ringP := ringQP.RingP
 
-	opOut.Resize(opOut.Degree(), levelQ)
+	// Only the two components of the result are written: a receiver of higher degree is cut to degree one
+	opOut.Resize(1, levelQ)
 
 	QiOverF := params.QiOverflowMargin(levelQ)
 	PiOverF := params.PiOverflowMargin(levelP)
@@ -284,7 +285,8 @@ func (eval Evaluator) MultiplyByDiagMatrixBSGS(ctIn *rlwe.Ciphertext, matrix Lin
 	ringQ := ringQP.RingQ
 	ringP := ringQP.RingP
 
-	opOut.Resize(opOut.Degree(), levelQ)
+	// Only the two components of the result are written: a receiver of higher degree is cut to degree one
+	opOut.Resize(1, levelQ)
 
 	QiOverF := params.QiOverflowMargin(levelQ) >> 1
 	PiOverF := params.PiOverflowMargin(levelP) >> 1
